@@ -18,6 +18,28 @@ AMBIENT = {
 }
 
 
+FALLBACK_GEN = """/- FALLBACK written by checks/c19.py because the extractor did not recognise the source. Spec evaluation only. -/
+namespace GqlgenVerif.Gen.RewriteOffsets
+inductive TrailerMode
+  | blockAlways
+  | lineWhenBlockEnd
+  deriving DecidableEq, Repr
+inductive AliasOmitRule
+  | suffixOnly
+  | suffixAndName
+  deriving DecidableEq, Repr
+def bodyStartOff : Nat := 1
+def bodyEndOff : Nat := 1
+def skipCopied : Bool := true
+def skipToks : List String := ["IMPORT"]
+def declSep : String := "\\n"
+def trimRemaining : Bool := true
+def trailerMode : TrailerMode := .lineWhenBlockEnd
+def aliasOmitRule : AliasOmitRule := .suffixAndName
+end GqlgenVerif.Gen.RewriteOffsets
+"""
+
+
 def lc_first(s):
     return s[:1].lower() + s[1:]
 
@@ -49,6 +71,10 @@ def expected_decls(pf):
     return out
 
 
+def squeeze_bodies(ds):
+    return [tuple(re.sub(r"\s+", "", x) if i == 5 else x for i, x in enumerate(d)) for d in ds]
+
+
 def observed_decls(af, pf):
     out = []
     methods = {(m["recv"], m["name"]) for m in pf["methods"]}
@@ -58,7 +84,7 @@ def observed_decls(af, pf):
                 continue
             out.append(("gen", d["tok"], d["name"]))
         elif (d["recv"], d["name"]) in methods:
-            out.append(("func", d["recv"], d["name"], d["namedV"], d["namedE"], d["inner"].strip(), d["doc"]))
+            out.append(("func", d["recv"], d["name"], d["namedV"], d["namedE"], d["canon"], d["doc"]))
         else:
             out.append(("func", d["recv"], d["name"]))
     return out
@@ -81,6 +107,10 @@ def compare(o, pred):
                             "parse_error": af.get("parseErr", "")})
             continue
         e, g = expected_decls(pf), observed_decls(af, pf)
+        if e != g and squeeze_bodies(e) == squeeze_bodies(g):
+            # the model does not model gofmt: a body typed without gofmt comes back re-indented
+            o.setdefault("_notes", []).append("gofmt-normalised-body")
+            e = g
         if e != g:
             k = next((i for i in range(min(len(e), len(g))) if e[i] != g[i]), min(len(e), len(g)))
             div.append({"what": "declarations", "file": pf["name"], "index": k,
@@ -100,7 +130,7 @@ def compare(o, pred):
         if bf is None:
             if not (o["layout"] == "follow" and n == "resolver.go" and [(d["kind"], d["name"]) for d in af["decls"]] == [("gen", "Resolver")]):
                 div.append({"what": "unexpected-new-file", "file": n})
-        elif (bf["decls"], bf["imports"], bf["remaining"]) != (af["decls"], af["imports"], af["remaining"]):
+        elif bf["sha"] != af["sha"]:
             div.append({"what": "untouched-file-changed", "file": n})
     for n in before:
         if n not in after:
@@ -132,7 +162,10 @@ def classify(o, v, pred):
         left = [p for p in pred if p["name"] == v["file"]]
         rem = left[0]["remaining"] if left else ""
         shape["cause"] = "leftover-contains-block-comment-end" if "*/" in rem else "other"
-        inp = {"file": v["file"], "leftover": rem}
+        af = [f for f in o["after"] if f["name"] == v["file"]]
+        inp = {"file": v["file"], "leftover": rem, "parse_error": af[0].get("parseErr", "") if af else "",
+               "written_file": (o.get("raw") or {}).get(v["file"], "")[:4000],
+               "file_before": [d["hdr"] + ("{" + d["inner"] + "}" if d["hasBody"] else "") for f in o["before"] if f["name"] == v["file"] for d in f["decls"]]}
     elif kind == "method":
         f, d = first_match(o["before"], v["recv"], v["name"])
         shape["what"] = v["what"]
@@ -170,7 +203,12 @@ def classify(o, v, pred):
         boiler = d is not None and (
             (d["kind"] == "func" and d["recv"] == "Resolver" and d["name"] in [uc_first(x) for x in objs]) or
             (d["kind"] == "gen" and d["tok"] == "TYPE" and d["name"] in [lc_first(x) + "Resolver" for x in objs]))
-        shape["cause"] = "generated-boilerplate-modified" if boiler else "other"
+        # "modified" = the text differs from what the template itself writes for that declaration
+        sq = lambda t: re.sub(r"\s+", "", t)
+        src = (d["hdr"] + ("{" + d["inner"] + "}" if d["hasBody"] else "")) if d else ""
+        pristine = [sq("type %sResolver struct{ *Resolver }" % lc_first(x)) for x in objs] + \
+                   [sq("func (r *Resolver) %s() %sResolver { return &%sResolver{r} }" % (uc_first(x), uc_first(x), lc_first(x))) for x in objs]
+        shape["cause"] = "generated-boilerplate-modified" if boiler and sq(src) not in pristine else "other"
         inp = {"file": v["file"], "declaration": (d["hdr"] + ("{" + d["inner"] + "}" if d["hasBody"] else "")) if d else None}
     else:
         inp = dict(v)
@@ -189,10 +227,20 @@ def run(ctx):
     proved = ok_extract and ctx.prove(props=["GqlgenVerif.Props.C19"])
     if ok_extract and not proved:
         ctx.cov["proof_failure"] = ctx.proof_failure
+    spec_only = False
     if not ok_extract:
-        # the source no longer has a shape the translator knows: the regenerated tie is broken. The model
-        # cannot be rebuilt, so the implementation is judged by the Spec alone if the old driver still runs.
-        ctx.prove(props=["GqlgenVerif.Props.C19"]) if False else None
+        # the source no longer has a shape the translator knows: the regenerated tie is broken (already
+        # recorded by ctx.extract). To still look for a failing input, build the driver over the last known
+        # constants and judge the implementation's output by the Spec alone (no model prediction).
+        import os
+        from lib import vf
+        with open(os.path.join(vf.LEAN, "GqlgenVerif", "Gen", "RewriteOffsets.lean"), "w") as f:
+            f.write(FALLBACK_GEN)
+        rc, so, se = vf.sh(["lake", "build", "driver_c19"], cwd=vf.LEAN, timeout=1800)
+        ctx.driver_ok = rc == 0
+        ctx.cov.setdefault("obligations", 0)
+        ctx.cov.setdefault("discharged", 0)
+        spec_only = True
 
     args = ["-tier", ctx.tier, "-seed", ctx.seed]
     rc, so, se = ctx.harness("c19", args, timeout=2400)
@@ -209,7 +257,8 @@ def run(ctx):
     have_driver = getattr(ctx, "driver_ok", False)
     lines = []
     for o in steps:
-        slim = {"layout": o["layout"], "before": o["before"], "schema": o["schema"], "after": o["after"]}
+        slim = {"layout": o["layout"], "omitTemplateComment": o.get("omitTemplateComment", False),
+                "before": o["before"], "schema": o["schema"], "after": o["after"]}
         js = json.dumps(slim)
         lines.append("regen " + js)
         lines.append("chk " + js)
@@ -229,6 +278,8 @@ def run(ctx):
             ctx.seed, ctx.tier, o["case"], o["kind"], o["layout"], o["step"], "; ".join(o["ops"] or []))
         # ---- coverage bookkeeping
         branch["layout:" + o["layout"]] += 1
+        if o.get("omitTemplateComment"):
+            branch["omit_template_comment"] += 1
         for op in o["ops"] or []:
             branch["op:" + op.split(" ")[0]] += 1
         if o["kind"] != "random":
@@ -250,6 +301,9 @@ def run(ctx):
                     moved += 1
         if moved:
             branch["method-moved-between-files"] += 1
+        unform = sum(1 for f in o["before"] for d in f["decls"] if d["kind"] == "func" and d["hasBody"] and d["canon"] != d["inner"].strip())
+        if unform:
+            branch["before-not-gofmt-ed"] += 1
         if edited and (left or moved or (o["ops"] and o["ops"] != ["repeat"] and o["ops"] != ["initial"])):
             nontriv.add(hashlib.sha256(json.dumps([o["before"], o["schema"]], sort_keys=True).encode()).hexdigest())
         if len(samples) < 3 and edited and left and o["kind"] == "random":
@@ -259,13 +313,21 @@ def run(ctx):
         # ---- aborted generation (nothing was written): the model has nothing to compare with
         aborted = o["genErr"] and not o["genErr"].startswith("validation failed")
         if aborted:
+            malformed = any(not f["parseOK"] for f in o["before"])
+            untouched = {f["name"]: f["sha"] for f in o["before"]} == {f["name"]: f["sha"] for f in o["after"]}
+            if malformed and untouched:
+                # malformed stream: a package that does not parse is refused and left exactly as it was
+                branch["malformed-input-refused-files-untouched"] += 1
+                continue
             branch["generator-aborted"] += 1
             ctx.violation({"kind": "generation-aborted", "error": o["genErr"], "replay": replay,
                            "shape": {"kind": "generation-aborted"}, "input": {"before": o["before"], "schema": o["schema"]}},
                           no_failing_input=False)
             continue
         # ---- correspondence
-        div = compare(o, pred) if outs else []
+        div = compare(o, pred) if outs and not spec_only else []
+        for n in o.get("_notes", []):
+            branch[n] += 1
         # ---- Spec on the implementation's own output
         spec_fail = False
         for v in viol:
